@@ -4,6 +4,7 @@ import (
 	"bytes"
 	"fmt"
 	"go/ast"
+	"go/constant"
 	"go/printer"
 	"go/token"
 	"go/types"
@@ -65,6 +66,7 @@ type Generator struct {
 	structs     map[string]*structInfo
 	structOrder []string
 	targets     map[string]*Target // key -> target
+	sentinels   map[string][3]string // error class -> import path, package name, variable name
 }
 
 type fn struct {
@@ -97,6 +99,7 @@ type fn struct {
 	funcPar   map[types.Object]*ty  // callback parameters
 	notes     []string
 	errCls    map[string]bool
+	structLocal map[types.Object]bool
 }
 
 func (t *fn) reject(n ast.Node, format string, a ...any) {
@@ -259,6 +262,9 @@ func (t *fn) ident(x *ast.Ident) string {
 			t.reject(x, "bare field reference `%s`", x.Name)
 		}
 		if v.Parent() == v.Pkg().Scope() {
+			if s, ok := t.sentinel(v); ok {
+				return s
+			}
 			t.reject(x, "package-level variable `%s` (mutable global state) is outside the subset", x.Name)
 		}
 		if _, known := t.names[o]; !known {
@@ -384,6 +390,33 @@ func (t *fn) binary(x *ast.BinaryExpr) string {
 			return "(GoSem.intShr " + a + " " + c + ")"
 		}
 		t.reject(x, "shift of `%s`: operand type outside the subset", t.text(x.X))
+	}
+	if x.Op == token.EQL || x.Op == token.NEQ {
+		// `err == nil` / `err != nil`: the only comparisons of error values in the subset (two non-nil
+		// errors compare by identity in Go, which the class model does not know)
+		var other ast.Expr
+		switch {
+		case t.isNil(x.Y):
+			other = x.X
+		case t.isNil(x.X):
+			other = x.Y
+		}
+		if other != nil {
+			if t.isNil(other) {
+				t.reject(x, "`nil == nil` is outside the subset")
+			}
+			if ot := t.tyOf(other); ot.k != kErr {
+				t.reject(x, "comparison `%s`: `nil` is in the subset only for `error` (slices are lists without a nil/empty distinction)", t.text(x))
+			}
+			op := " == "
+			if x.Op == token.NEQ {
+				op = " != "
+			}
+			return "(" + t.ex(other) + op + "GoSem.Err.nil)"
+		}
+		if t.tyOf(x.X).k == kErr || t.tyOf(x.Y).k == kErr {
+			t.reject(x, "comparison `%s` of two error values (identity) is outside the subset; only comparisons with nil are translated", t.text(x))
+		}
 	}
 	at := t.tyOf(x.X)
 	bt := t.tyOf(x.Y)
@@ -611,6 +644,8 @@ func (t *fn) call(x *ast.CallExpr, want int) []string {
 		return []string{"(" + lf + " " + t.ex(x.Args[0]) + ")"}
 	}
 	switch full {
+	case "fmt.Errorf", "errors.New":
+		return []string{t.errorfCall(x, full)}
 	case "encoding/hex.EncodedLen":
 		t.noteInt(x)
 		return []string{"(" + t.ex(x.Args[0]) + " * (2 : Int))"}
@@ -724,7 +759,10 @@ func (t *fn) recvMethodDep(x *ast.CallExpr) *FuncResult {
 func (t *fn) recvMethodCall(x *ast.CallExpr, callee *types.Func) []string {
 	dep := t.recvMethodDep(x)
 	if dep == nil {
-		t.reject(x, "method call `%s`: only methods of the receiver of the translated method itself are in the subset", t.text(x.Fun))
+		if ldep, lo := t.localMethodDep(x); ldep != nil {
+			return t.localMethodCall(x, callee, ldep, lo)
+		}
+		t.reject(x, "method call `%s`: only methods of the receiver of the translated method itself, or of a local struct variable declared `var v S` that has no second name (no copy, no field assignment, no slice field read), are in the subset", t.text(x.Fun))
 	}
 	if !dep.OK {
 		t.reject(x, "callee %s is not translatable: %s", dep.Key, dep.Reason)
@@ -925,6 +963,11 @@ func (t *fn) sliceExpr(x *ast.SliceExpr) string {
 func (t *fn) selector(x *ast.SelectorExpr) string {
 	sel := t.pkg.info.Selections[x]
 	if sel == nil {
+		if v, ok := t.pkg.info.ObjectOf(x.Sel).(*types.Var); ok {
+			if s, ok := t.sentinel(v); ok {
+				return s
+			}
+		}
 		t.reject(x, "qualified identifier `%s` is outside the subset (package-level variable or function value)", t.text(x))
 	}
 	if sel.Kind() != types.FieldVal {
@@ -1163,6 +1206,10 @@ func (t *fn) assignedOuter(nodes ...ast.Node) []types.Object {
 				for _, a := range t.writtenArgs(s) {
 					mark(a)
 				}
+				// v.M(...) on a local struct variable where M writes its receiver: v is assigned
+				if dep, lo := t.localMethodDep(s); dep != nil && dep.OK && dep.Sig != nil && dep.Sig.RecvOut {
+					set[lo] = true
+				}
 				// r.M(...) where M writes the receiver (state passing): r is assigned
 				if dep := t.recvMethodDep(s); dep != nil && dep.OK && dep.Sig != nil && dep.Sig.RecvOut && t.recvObj != nil {
 					set[t.recvObj] = true
@@ -1259,8 +1306,12 @@ func (t *fn) stmt(s ast.Stmt, c *ctx, k func() []string) []string {
 				return c.ret(tuple(t.call(ce, len(t.resTy))))
 			}
 			var vs []string
-			for _, r := range x.Results {
-				vs = append(vs, t.ex(r))
+			for i, r := range x.Results {
+				if i < len(t.resTy) {
+					vs = append(vs, t.exAs(r, t.resTy[i]))
+				} else {
+					vs = append(vs, t.ex(r))
+				}
 			}
 			return c.ret(tuple(vs))
 		})
@@ -1333,7 +1384,7 @@ func (t *fn) stmt(s ast.Stmt, c *ctx, k func() []string) []string {
 						}
 						v = z
 					} else {
-						v = t.ex(vs.Values[i])
+						v = t.exAs(vs.Values[i], vt)
 					}
 					vals = append(vals, v)
 				}
@@ -1704,13 +1755,23 @@ func (t *fn) assign(x *ast.AssignStmt) []string {
 			v := t.copyCall(ce)
 			return t.assignTo(x.Lhs[0], v)
 		}
+		if t.isNil(x.Rhs[0]) {
+			return t.assignTo(x.Lhs[0], t.exAs(x.Rhs[0], t.tyOf(x.Lhs[0])))
+		}
 		v := t.ex(x.Rhs[0])
 		return t.assignTo(x.Lhs[0], v)
 	}
 	// parallel assignment: evaluate every right-hand side first
 	var lines []string
 	var tmps []string
-	for _, r := range x.Rhs {
+	for i, r := range x.Rhs {
+		if t.isNil(r) {
+			lt := t.tyOf(x.Lhs[i])
+			n := t.fresh("p")
+			lines = append(lines, fmt.Sprintf("let %s : %s := %s", n, lt.lean(), t.exAs(r, lt)))
+			tmps = append(tmps, n)
+			continue
+		}
 		v := t.ex(r)
 		n := t.fresh("p")
 		rt := t.tyOf(r)
@@ -1811,40 +1872,59 @@ func (t *fn) switchStmt(x *ast.SwitchStmt, c *ctx, k func() []string) []string {
 				}
 				cc := clauses[i]
 				return t.withPre(func() []string {
+					// Go spec, "Expression switches": the case expressions are evaluated left-to-right and
+					// top-to-bottom; the first one that matches selects its clause and the remaining ones are
+					// not evaluated.  A clause `case e1, e2:` is therefore `e1 || e2` with short-circuit: the
+					// bindings (index checks, calls) of e2 are made only when e1 did not match.
 					var conds []string
+					var subs [][]string
+					anySub := false
 					for _, e := range cc.List {
+						var sub []string
+						save := t.pre
+						t.pre = &sub
+						v := t.ex(e)
+						t.pre = save
 						if x.Tag != nil {
-							var sub []string
-							save := t.pre
-							t.pre = &sub
-							v := t.ex(e)
-							t.pre = save
-							if len(sub) > 0 {
-								t.reject(e, "case expression that can panic is outside the subset")
-							}
-							conds = append(conds, "("+tagName+" == "+v+")")
-						} else {
-							var sub []string
-							save := t.pre
-							t.pre = &sub
-							v := t.ex(e)
-							t.pre = save
-							if len(sub) > 0 {
-								// evaluated like the condition of an if/else-if chain: the bindings go in front of
-								// this clause's `if`, inside the else branch of the previous clause
-								if len(cc.List) > 1 {
-									t.reject(e, "case with several conditions one of which can panic is outside the subset")
-								}
-								for _, l := range sub {
-									t.emit(l)
-								}
-							}
-							conds = append(conds, v)
+							v = "(" + tagName + " == " + v + ")"
 						}
+						if len(sub) > 0 {
+							anySub = true
+						}
+						subs = append(subs, sub)
+						conds = append(conds, v)
 					}
 					cond := strings.Join(conds, " || ")
 					if len(conds) > 1 {
 						cond = "(" + cond + ")"
+					}
+					if anySub && len(conds) == 1 {
+						// evaluated like the condition of an if/else-if chain: the bindings go in front of
+						// this clause's `if`, inside the else branch of the previous clause
+						for _, l := range subs[0] {
+							t.emit(l)
+						}
+					} else if anySub {
+						last := len(conds) - 1
+						term, pre := conds[last], subs[last]
+						for i := last - 1; i >= 0; i-- {
+							if len(pre) == 0 {
+								term, pre = "("+conds[i]+" || "+term+")", subs[i]
+								continue
+							}
+							n := t.fresh("c")
+							np := append([]string{}, subs[i]...)
+							np = append(np, fmt.Sprintf("let %s ← (if (!%s) then (do", n, conds[i]))
+							for _, l := range pre {
+								np = append(np, "    "+l)
+							}
+							np = append(np, fmt.Sprintf("    pure %s) else pure true)", term))
+							term, pre = n, np
+						}
+						for _, l := range pre {
+							t.emit(l)
+						}
+						cond = term
 					}
 					ls := []string{"if " + cond + " then"}
 					ls = append(ls, indent(t.block(cc.Body, c2, k))...)
@@ -2763,4 +2843,289 @@ func (t *fn) callbackCall(x *ast.CallExpr, v *types.Var, ft *ty, want int) []str
 	}
 	t.emit(fmt.Sprintf("let %s ← %s", t.nameOf(o), strings.Join(args, " ")))
 	return []string{"()"}
+}
+
+// ---------------------------------------------------------------- error values (GoSem.Err)
+
+func (t *fn) isNil(e ast.Expr) bool {
+	id, ok := ast.Unparen(e).(*ast.Ident)
+	if !ok {
+		return false
+	}
+	_, isNil := t.pkg.info.ObjectOf(id).(*types.Nil)
+	return isNil
+}
+
+// exAs: e where a value of type want is expected (`nil` has no type of its own).
+func (t *fn) exAs(e ast.Expr, want *ty) string {
+	if t.isNil(e) {
+		if want != nil && want.k == kErr {
+			return "GoSem.Err.nil"
+		}
+		t.reject(e, "`nil` is in the subset only as an `error` value (slices are lists without a nil/empty distinction)")
+	}
+	return t.ex(e)
+}
+
+func leanString(s string) (string, bool) {
+	var b strings.Builder
+	b.WriteByte('"')
+	for _, r := range s {
+		switch {
+		case r == '"' || r == '\\':
+			b.WriteByte('\\')
+			b.WriteRune(r)
+		case r >= 0x20 && r < 0x7f:
+			b.WriteRune(r)
+		case r <= 0xffff:
+			fmt.Fprintf(&b, "\\u%04x", r)
+		default:
+			return "", false
+		}
+	}
+	b.WriteByte('"')
+	return b.String(), true
+}
+
+// sentinel: a package-level variable of type `error` (hex.ErrLength, io.EOF, the package's own
+// `var ErrX = errors.New(…)`) is the class "<import path>.<Name>" without arguments.  ASSUMPTION
+// (stated in the header): such variables are never reassigned.
+func (t *fn) sentinel(v *types.Var) (string, bool) {
+	if v.Pkg() == nil || v.Parent() != v.Pkg().Scope() {
+		return "", false
+	}
+	if et, err := t.goType(v.Type()); err != nil || et.k != kErr {
+		return "", false
+	}
+	cls := v.Pkg().Path() + "." + v.Name()
+	q, ok := leanString(cls)
+	if !ok {
+		return "", false
+	}
+	if !t.errCls[cls] {
+		t.notes = append(t.notes, fmt.Sprintf("error variable `%s`: translated as the class %s; ASSUMED never to be reassigned", cls, q))
+	}
+	t.errCls[cls] = true
+	if t.g.sentinels == nil {
+		t.g.sentinels = map[string][3]string{}
+	}
+	t.g.sentinels[cls] = [3]string{v.Pkg().Path(), v.Pkg().Name(), v.Name()}
+	return "(GoSem.Err.mk " + q + " [])", true
+}
+
+// errorfCall: `fmt.Errorf("<constant format>", args…)` / `errors.New("<constant>")` ↦
+// `GoSem.Err.mk "<format>" [integer arguments…]`.  The arguments are evaluated left to right
+// (Go spec, "Order of evaluation"), so their panics happen as in Go; arguments of integer type are
+// kept (as Int), all others are evaluated and dropped: the message text is not modelled.  `%w`
+// (wrapping) and error-typed arguments are rejected.
+func (t *fn) errorfCall(x *ast.CallExpr, full string) string {
+	if len(x.Args) == 0 || x.Ellipsis != token.NoPos {
+		t.reject(x, "malformed %s call", full)
+	}
+	tv, ok := t.pkg.info.Types[x.Args[0]]
+	if !ok || tv.Value == nil || tv.Value.Kind() != constant.String {
+		t.reject(x, "%s with a format that is not a constant string is outside the subset", full)
+	}
+	format := constant.StringVal(tv.Value)
+	if full == "fmt.Errorf" && strings.Contains(strings.ReplaceAll(format, "%%", ""), "%w") {
+		t.reject(x, "fmt.Errorf with %%w (error wrapping) is outside the subset")
+	}
+	q, ok := leanString(format)
+	if !ok {
+		t.reject(x, "format string with characters outside the BMP")
+	}
+	var ints []string
+	for _, a := range x.Args[1:] {
+		if t.isNil(a) {
+			t.reject(x, "nil as an argument of %s is outside the subset", full)
+		}
+		at := t.tyOf(a)
+		v := t.ex(a)
+		switch {
+		case at.k == kErr:
+			t.reject(x, "an error value as an argument of %s is outside the subset", full)
+		case at.k == kInt:
+			ints = append(ints, v)
+		case at.k == kBV && at.signed:
+			ints = append(ints, "("+parenIf(v)+".toInt)")
+		case at.k == kBV:
+			ints = append(ints, "(Int.ofNat "+parenIf(v)+".toNat)")
+		}
+	}
+	t.errCls[format] = true
+	return "(GoSem.Err.mk " + q + " [" + strings.Join(ints, ", ") + "])"
+}
+
+// ---------------------------------------------------------------- method calls on a local struct variable
+
+// localMethodDep: for `v.M(...)` where v is a LOCAL variable of a struct type of the module declared
+// `var v S` (zero value) in this function: the translation of S.M and v.  The struct value must have
+// no second name and no exposed slice: every occurrence of v in the function is the receiver of a
+// method call, a whole-value operand of `return`, or a read of a field that is not a slice/struct
+// (anything else — `w := v`, `v.f = …`, `&v`, passing v — is rejected: a copy of the struct would
+// share the backing arrays of its slice fields).
+func (t *fn) localMethodDep(x *ast.CallExpr) (*FuncResult, types.Object) {
+	se, ok := ast.Unparen(x.Fun).(*ast.SelectorExpr)
+	if !ok {
+		return nil, nil
+	}
+	id, ok := ast.Unparen(se.X).(*ast.Ident)
+	if !ok {
+		return nil, nil
+	}
+	v, ok := t.pkg.info.ObjectOf(id).(*types.Var)
+	if !ok || v == t.recvObj || v.IsField() || v.Pkg() == nil || v.Parent() == v.Pkg().Scope() {
+		return nil, nil
+	}
+	callee, _ := t.pkg.info.ObjectOf(se.Sel).(*types.Func)
+	sel := t.pkg.info.Selections[se]
+	if callee == nil || sel == nil || sel.Kind() != types.MethodVal || len(sel.Index()) != 1 {
+		return nil, nil
+	}
+	named, ok := types.Unalias(v.Type()).(*types.Named)
+	if !ok {
+		return nil, nil
+	}
+	if _, isStruct := named.Underlying().(*types.Struct); !isStruct {
+		return nil, nil
+	}
+	np := named.Obj().Pkg()
+	if np == nil || !(np.Path() == t.g.l.modPath || strings.HasPrefix(np.Path(), t.g.l.modPath+"/")) {
+		return nil, nil
+	}
+	if !t.structLocalOK(v) {
+		return nil, nil
+	}
+	dir := strings.TrimPrefix(strings.TrimPrefix(np.Path(), t.g.l.modPath), "/")
+	if dir == "" {
+		dir = "."
+	}
+	return t.g.translate(dir, named.Obj().Name()+"."+callee.Name(), false), v
+}
+
+func (t *fn) structLocalOK(v *types.Var) bool {
+	if r, ok := t.structLocal[v]; ok {
+		return r
+	}
+	if t.structLocal == nil {
+		t.structLocal = map[types.Object]bool{}
+	}
+	declared := false
+	ast.Inspect(t.decl.Body, func(m ast.Node) bool {
+		if vs, ok := m.(*ast.ValueSpec); ok {
+			for _, n := range vs.Names {
+				if t.pkg.info.Defs[n] == types.Object(v) && len(vs.Values) == 0 {
+					declared = true
+				}
+			}
+		}
+		return true
+	})
+	okAll := declared
+	par := t.parentMap()
+	ast.Inspect(t.decl.Body, func(m ast.Node) bool {
+		id, ok := m.(*ast.Ident)
+		if !ok || t.pkg.info.Uses[id] != types.Object(v) {
+			return true
+		}
+		var p ast.Node = par[id]
+		for {
+			if pe, ok := p.(*ast.ParenExpr); ok {
+				p = par[pe]
+				continue
+			}
+			break
+		}
+		switch u := p.(type) {
+		case *ast.SelectorExpr:
+			sel := t.pkg.info.Selections[u]
+			if sel == nil {
+				okAll = false
+				return true
+			}
+			switch sel.Kind() {
+			case types.MethodVal:
+				if ce, ok := par[u].(*ast.CallExpr); !ok || ast.Unparen(ce.Fun) != ast.Expr(u) {
+					okAll = false // method value
+				}
+			case types.FieldVal:
+				ft, err := t.goType(sel.Type())
+				if err != nil || ft.k == kList && !ft.str || ft.k == kStruct {
+					okAll = false
+				}
+				// a field of v must not be assigned or have its address taken
+				switch pp := par[u].(type) {
+				case *ast.AssignStmt:
+					for _, l := range pp.Lhs {
+						if ast.Unparen(l) == ast.Expr(u) {
+							okAll = false
+						}
+					}
+				case *ast.IncDecStmt, *ast.UnaryExpr:
+					if ue, ok := pp.(*ast.UnaryExpr); !ok || ue.Op == token.AND {
+						okAll = false
+					}
+				}
+			default:
+				okAll = false
+			}
+		case *ast.ReturnStmt:
+			// moved out
+		default:
+			okAll = false
+		}
+		return true
+	})
+	t.structLocal[v] = okAll
+	return okAll
+}
+
+// localMethodCall: `v.M(args)` on a local struct variable: M is translated as a helper definition
+// and v is threaded through it when M writes its receiver (`let (q, rc) ← S_M v args; let v := rc`).
+func (t *fn) localMethodCall(x *ast.CallExpr, callee *types.Func, dep *FuncResult, lo types.Object) []string {
+	if !dep.OK {
+		t.reject(x, "callee %s is not translatable: %s", dep.Key, dep.Reason)
+	}
+	if len(dep.Sig.Externs) > 0 {
+		t.reject(x, "callee %s takes extern parameters", dep.Key)
+	}
+	if len(dep.Sig.InOut) > 0 {
+		t.reject(x, "callee %s writes a slice parameter (in-out): method calls of that shape are outside the subset", dep.Key)
+	}
+	for _, c := range dep.Sig.ErrClasses {
+		t.errCls[c] = true
+	}
+	vn := t.nameOf(lo)
+	args := []string{vn}
+	for _, a := range x.Args {
+		if t.mentions(a, lo) {
+			t.reject(x, "`%s` occurs in an argument of its own method call: outside the subset", lo.Name())
+		}
+		args = append(args, t.arg(a))
+	}
+	nres := callee.Type().(*types.Signature).Results().Len()
+	var names []string
+	for i := 0; i < nres; i++ {
+		names = append(names, t.fresh("r"))
+	}
+	pat := tuple(names)
+	if nres == 0 {
+		pat = "_"
+	}
+	if dep.Sig.RecvOut {
+		nr := t.fresh("rc")
+		if nres == 0 {
+			pat = nr
+		} else {
+			pat = "(" + pat + ", " + nr + ")"
+		}
+		t.emit(fmt.Sprintf("let %s ← %s %s", pat, dep.LeanName, strings.Join(args, " ")))
+		t.emit(fmt.Sprintf("let %s : %s := %s", vn, t.varTy(lo).lean(), nr))
+	} else {
+		t.emit(fmt.Sprintf("let %s ← %s %s", pat, dep.LeanName, strings.Join(args, " ")))
+	}
+	if nres == 0 {
+		return []string{"()"}
+	}
+	return names
 }
